@@ -2,7 +2,9 @@ import MgpuProofs.C07DispDefs
 set_option linter.unusedVariables false
 set_option linter.unusedSimpArgs false
 /-! # C07 helper lemmas: the return path of scalar loads (`executeSMEMLoad` destination +
-`handleScalarDataLoadReturn`, model `TimingRF.smemReturn`) writes through the register FILE -/
+`handleScalarDataLoadReturn`). Repaired (`TimingRF.smemReturn`): the destination is SDATA's own
+register advanced by the piece offset, written through the register ACCESSOR = `WriteOperandBytes`.
+Before the repair (`TimingRF.smemReturnOld`): `insts.SReg(RegIndex()+k)` written through the FILE. -/
 namespace C07
 open Gen
 
@@ -25,11 +27,48 @@ theorem raw_write_s (t : TimingRF) (wi i rc lane : Nat) (d : List UInt8) (hi : i
   repeat' split
   all_goals rfl
 
+/-- `smemDstReg` of an SGPR: `s[i+k]` -/
+theorem smemDst_s (i k : Nat) (hi : i + k < 102) : TimingRF.smemDst (R_S0 + i) k = R_S0 + (i + k) := by
+  have hS := isSReg_s i (by omega)
+  simp only [TimingRF.smemDst, hS, if_true, TimingRF.sregAt, regIndex_s i (by omega), Int.ofNat_eq_natCast]
+  omega
+
+/-- `smemDstReg` of the first piece is SDATA's own register, whatever it is -/
+theorem smemDst_zero (r : Nat) : TimingRF.smemDst r 0 = r := by
+  unfold TimingRF.smemDst
+  split
+  · rename_i hS
+    have : R_S0 ≤ r := by
+      unfold isSReg at hS
+      simp only [Bool.and_eq_true, decide_eq_true_eq] at hS
+      exact hS.1
+    simp only [TimingRF.sregAt, regIndex, hS, if_true, Int.ofNat_eq_natCast]
+    omega
+  · rfl
+
+/-- **the repaired return path is the operand write**: whenever the destination register exists and
+    is not a VGPR (SDATA is a 7-bit scalar operand: never a VGPR), piece `k` of a scalar load is
+    `WriteOperandBytes` of the `len(data)/4` registers from `smemDstReg(SDATA, k)` on -/
+theorem smem_return_operand_write (t : TimingRF) (wi r k : Nat) (data : List UInt8)
+    (hk : knownReg (TimingRF.smemDst r k) = true) (hV : isVReg (TimingRF.smemDst r k) = false) :
+    t.smemReturn wi r k data = t.writeOperandBytes wi (TimingRF.smemDst r k) (data.length / 4) 0 data := by
+  simp only [TimingRF.smemReturn, hk, Bool.not_true, Bool.false_eq_true, if_false, TimingRF.writeOperandBytes,
+    TimingRF.waveOffset, hV]
+
 /-- **scalar load returning into SGPRs = the operand write of those SGPRs.** Piece `k` (in dwords) of a
     load whose SDATA is `s i`: the return path writes registers `s[i+k …]` exactly as
     `WriteOperandBytes` of that SGPR operand with `RegCount = len(data)/4` does. -/
 theorem smem_return_sgpr (t : TimingRF) (wi i k : Nat) (data : List UInt8) (hi : i + k < 102) :
     t.smemReturn wi (R_S0 + i) k data = t.writeOperandBytes wi (R_S0 + (i + k)) (data.length / 4) 0 data := by
+  have hk : knownReg (R_S0 + (i + k)) = true := knownReg_lt _ (by simp only [R_S0]; omega)
+  have := smem_return_operand_write t wi (R_S0 + i) k data (by rw [smemDst_s i k hi]; exact hk)
+    (by rw [smemDst_s i k hi]; exact isVReg_s _)
+  rw [this, smemDst_s i k hi]
+
+/-- before the repair the same held for SGPR destinations (the raw register-file write at an SGPR is
+    the accessor's write of that SGPR) -/
+theorem smem_return_sgpr_before_fix (t : TimingRF) (wi i k : Nat) (data : List UInt8) (hi : i + k < 102) :
+    t.smemReturnOld wi (R_S0 + i) k data = t.writeOperandBytes wi (R_S0 + (i + k)) (data.length / 4) 0 data := by
   have hS := isSReg_s i (by omega)
   have hidx : TimingRF.sregAt (TimingRF.regIndexInt (R_S0 + i) + Int.ofNat k) = R_S0 + (i + k) := by
     simp only [TimingRF.sregAt, TimingRF.regIndexInt, hS, Bool.true_or, if_true, regIndex_s i (by omega),
@@ -37,9 +76,9 @@ theorem smem_return_sgpr (t : TimingRF) (wi i k : Nat) (data : List UInt8) (hi :
     omega
   have hk : knownReg (R_S0 + (i + k)) = true := knownReg_lt _ (by simp only [R_S0]; omega)
   rw [raw_write_s t wi (i + k) _ 0 data hi]
-  simp only [TimingRF.smemReturn, hidx, hk, Bool.not_true, Bool.false_eq_true, if_false, TimingRF.wf]
+  simp only [TimingRF.smemReturnOld, hidx, hk, Bool.not_true, Bool.false_eq_true, if_false, TimingRF.wf]
 
-/-- destination of a scalar load whose SDATA is neither an SGPR nor a VGPR (VCC, M0, EXEC, …):
+/-- BEFORE THE REPAIR: destination of a scalar load whose SDATA is neither an SGPR nor a VGPR (VCC, M0, EXEC, …):
     `RegIndex()` is −1, `insts.SReg(−1 + k)` is `Regs[S0 − 1 + k]` -/
 theorem smem_dst_special (r k : Nat) (hS : isSReg r = false) (hV : isVReg r = false) :
     TimingRF.sregAt (TimingRF.regIndexInt r + Int.ofNat k) = R_V255 + k := by
@@ -47,16 +86,16 @@ theorem smem_dst_special (r k : Nat) (hS : isSReg r = false) (hV : isVReg r = fa
     Int.ofNat_eq_natCast]
   omega
 
-/-- **scalar load into a special register never reaches that register**: for SDATA = VCC / M0 / EXEC …
+/-- **BEFORE THE REPAIR a scalar load into a special register never reached that register**: for SDATA = VCC / M0 / EXEC …
     and the first piece (`k = 0`) the return path leaves every wavefront record (hence VCC, EXEC, SCC,
     M0 of every wavefront) and every vector file alone, and the only bytes of the scalar file that can
     change are `[SRegOffset + 1020, SRegOffset + 1020 + len(data))` — beyond the loader's own SGPR
     window (a wavefront owns at most 102 SGPRs = 408 bytes). -/
-theorem smem_return_special (t : TimingRF) (wi r : Nat) (data : List UInt8)
+theorem smem_return_special_before_fix (t : TimingRF) (wi r : Nat) (data : List UInt8)
     (hS : isSReg r = false) (hV : isVReg r = false) :
-    (t.smemReturn wi r 0 data).1.wfs = t.wfs ∧ (t.smemReturn wi r 0 data).1.vfiles = t.vfiles ∧
+    (t.smemReturnOld wi r 0 data).1.wfs = t.wfs ∧ (t.smemReturnOld wi r 0 data).1.vfiles = t.vfiles ∧
     (∀ p, ¬ ((t.wf wi).soff + 1020 ≤ p ∧ p < (t.wf wi).soff + 1020 + 4 * cnt (data.length / 4)) →
-      get (t.smemReturn wi r 0 data).1.sfile p = get t.sfile p) ∧
+      get (t.smemReturnOld wi r 0 data).1.sfile p = get t.sfile p) ∧
     ((t.wf wi).ns ≤ 102 → ∀ p, (t.wf wi).soff + 1020 ≤ p → ¬ ownS (t.wf wi) p) := by
   have hd : TimingRF.sregAt (TimingRF.regIndexInt r + Int.ofNat 0) = 257 := by
     rw [smem_dst_special r 0 hS hV]; rfl
@@ -65,10 +104,10 @@ theorem smem_return_special (t : TimingRF) (wi r : Nat) (data : List UInt8)
   have hs255 : isSReg 257 = false := by decide
   have hri : regIndex 257 = 255 := by decide
   refine ⟨?_, ?_, ?_, ?_⟩
-  · simp only [TimingRF.smemReturn, hd, hk, Bool.not_true, Bool.false_eq_true, if_false]
-  · simp only [TimingRF.smemReturn, hd, hk, Bool.not_true, Bool.false_eq_true, if_false]
+  · simp only [TimingRF.smemReturnOld, hd, hk, Bool.not_true, Bool.false_eq_true, if_false]
+  · simp only [TimingRF.smemReturnOld, hd, hk, Bool.not_true, Bool.false_eq_true, if_false]
   · intro p hp
-    simp only [TimingRF.smemReturn, hd, hk, Bool.not_true, Bool.false_eq_true, if_false, SimpleRF.write,
+    simp only [TimingRF.smemReturnOld, hd, hk, Bool.not_true, Bool.false_eq_true, if_false, SimpleRF.write,
       SimpleRF.regOffset, hs255, hv255, if_true, hri, S_STRIDE, Nat.mul_zero, Nat.zero_mul, Nat.add_zero, TimingRF.wf,
       cnt_beq] at hp ⊢
     split
